@@ -519,6 +519,85 @@ class SGen:
         return d
 
 
+class NGen(SGen):
+    """Deep nesting with pass-through scopes: a chain of 3-5 scoping constructs (for / with / filter /
+    block set / macro + call), where the statements each level adds on its own use a random 1-2 name
+    subset of the pool, so that a variable owned by an outer non-root scope (loop target, with target,
+    macro parameter) is often not mentioned by the scopes in between and is conditionally assigned and
+    read further inside."""
+
+    def small(self, pool, in_loop):
+        r = self.r
+        old, self.pool = self.pool, pool
+        try:
+            k = r.random()
+            x = self.name()
+            if k < 0.3:
+                return [("out", [self.expr(1, in_loop)])]
+            if k < 0.5:
+                return [("set", x, self.expr(1, in_loop))]
+            if k < 0.8:
+                body = [("set", x, self.expr(1, in_loop))]
+                els = [("set", self.name(), self.expr(0, in_loop))] if r.random() < 0.3 else []
+                return [("if", self.expr(1, in_loop), body, [], els), ("out", [("n", x)])]
+            return [("out", [("n", x)]), ("if", self.expr(1, in_loop), [("set", x, self.expr(1, in_loop))], [], [])]
+        finally:
+            self.pool = old
+
+    def sub(self):
+        return self.r.sample(POOL, self.r.randint(1, 2))
+
+    def nest(self, level, in_loop, macros):
+        r = self.r
+        if level == 0:
+            out = []
+            for _ in range(r.randint(1, 2)):
+                out += self.small(self.sub(), in_loop)
+            return out
+        kind = r.choice(["for", "for", "with", "with", "filt", "setb", "macro"])
+        own_pool = self.sub()
+        pre = self.small(own_pool, in_loop) if r.random() < 0.35 else []
+        post = self.small(own_pool, in_loop) if r.random() < 0.35 else []
+        if kind == "for":
+            inner = self.nest(level - 1, True, macros)
+            it = r.choice([("n", r.choice(POOL)), ("s", "pq"), ("s", "k")])
+            return [("for", r.choice(POOL), it, None, pre + inner + post, [])]
+        inner = self.nest(level - 1, in_loop, macros)
+        if kind == "with":
+            old, self.pool = self.pool, own_pool + [r.choice(POOL)]
+            binds = [(r.choice(POOL), self.expr(1, in_loop)) for _ in range(r.randint(0, 2))]
+            self.pool = old
+            return [("with", binds, pre + inner + post)]
+        if kind == "filt":
+            return [("filt", r.choice("ul"), pre + inner + post)]
+        if kind == "setb":
+            x = r.choice(POOL)
+            return [("setb", x, pre + inner + post), ("out", [("n", x)])]
+        m = r.choice(self.mpool)
+        ps = r.sample(POOL, r.randint(0, 2))
+        old, self.pool = self.pool, own_pool + [r.choice(POOL)]
+        args = [self.expr(1, in_loop) for _ in range(len(ps))]
+        self.pool = old
+        return [("macro", m, ps, pre + inner + post), ("callo", m, args)]
+
+    def program(self):
+        r = self.r
+        out = []
+        if r.random() < 0.4:
+            out += self.small(self.sub(), False)
+        out += self.nest(r.randint(3, 5), False, [])
+        if r.random() < 0.4:
+            out += self.small(self.sub(), False)
+        return out
+
+    def data(self):
+        d = super().data()
+        for x in POOL:
+            if x not in d and self.r.random() < 0.5:
+                d[x] = self.r.choice([[1, 0], "uv", 3, ["p", "q"]])
+        return d
+
+
 def prog_size(p):
     n = 0
     for s in p:
